@@ -109,6 +109,6 @@ def judgeCore (j : JState) (op : Op) (cur : Obs) : String :=
     range is the known class `viol:retry-different-range:server-allocated-unkeyed-evicted`. -/
 def judge (j : JState) (op : Op) (cur : Obs) : String :=
   let v := judgeCore j op cur
-  if j.fresh ∧ v == "viol:retry-different-range" then v ++ ":" ++ unkeyedSuffix else v
+  if j.fresh ∧ (v == "viol:retry-different-range" ∨ v == "viol:conflicting-retry-acked") then v ++ ":" ++ unkeyedSuffix else v
 
 end WK.C03
